@@ -223,6 +223,26 @@ def proto_params(ctx):
     return json.load(open(parp)), log
 
 
+def parse_races(golog):
+    """-> list of (signature, report text): one per `WARNING: DATA RACE` block; the signature is the pair of functions
+    whose accesses race (top frames), e.g. server.(*h3sHandler).ProxyStreamHijacker+server.(*h3sHandler).ServeHTTP."""
+    import re
+    out = []
+    for blk in golog.split("WARNING: DATA RACE")[1:]:
+        blk = blk.split("==================")[0]
+        funcs = []
+        lines = blk.splitlines()
+        for i, ln in enumerate(lines):
+            if re.match(r"^(Write|Read|Previous write|Previous read) at ", ln) and i + 1 < len(lines):
+                f = lines[i + 1].strip().split("/")[-1]
+                f = re.sub(r"\(\)$", "", f)
+                where = lines[i + 2].strip().split(" ")[0] if i + 2 < len(lines) else ""
+                funcs.append((f, where))
+        sig = "+".join(sorted(set(f for f, _ in funcs)))
+        out.append((sig, funcs, blk.strip()[:2500]))
+    return out
+
+
 def run_check(ctx, spec):
     """common.run_case_check with: params merged from two Go packages, -race at the thorough tier,
     feature histogram printed, disagreement explanation."""
@@ -238,8 +258,21 @@ def run_check(ctx, spec):
         ok, outs, params, golog = common.run_go_cases(ctx, spec.GO, cases, timeout=1500, race=race)
         ctx.say("go harness: %d cases in %.1fs%s" % (len(cases), time.time() - t0, " (-race)" if race else ""))
         pparams, plog = fut.result()
-    if race and "DATA RACE" in golog:
-        ctx.say("race detector output:\n" + golog[-3000:])
+    races = parse_races(golog) if race else []
+    if races:
+        seen = set()
+        for sig, funcs, text in races:
+            if sig in seen:
+                continue
+            seen.add(sig)
+            ctx.say("race detector: " + sig + "  " + ", ".join(w for _, w in funcs))
+            violations.append({
+                "what": "data race reported by go test -race between " + " and ".join("%s (%s)" % fw for fw in funcs),
+                "replay": {"how": "go test -race of the %s harness (any history in which a proxy stream is dispatched on a connection "
+                                  "after an accepting verdict on it)" % ctx.pid, "race_report": text},
+                "fingerprint": "data-race:" + sig, "found_input": True})
+        if len(outs) == len(cases):
+            ok = True       # the harness ran to the end; the non-zero exit status is the race detector's
     if not ok or pparams is None:
         lg = golog if not ok else plog
         ctx.say("Go harness failed:\n" + lg[-3000:])
